@@ -34,52 +34,52 @@ func init() {
 
 // persistent fields of the reset chain with reasons; every other field of a chain struct must be reset.
 var c16Persistent = map[string]string{
-	"World.stats":                   "statistics object is recomputed on every Stats call",
-	"storage.graph":                 "documented: Reset does not remove archetypes; graph nodes map masks to archetypes",
-	"storage.archetypes":            "documented: archetypes persist; each is reset in the loop",
-	"storage.archetypesData":        "archetype data persists with the archetypes",
-	"storage.allArchetypes":         "archetypes persist",
-	"storage.componentIndex":        "archetypes persist",
-	"storage.relationArchetypes":    "archetypes persist",
-	"storage.tables":                "tables persist (memory is kept); reset through their archetypes",
-	"storage.components":            "column lookup of persisting tables",
-	"storage.registry":              "documented: the registry is not cleared",
-	"storage.config":                "configuration",
-	"storage.slices":                "scratch slices are empty between operations",
-	"entityPool.pointer":            "the buffer is re-sliced, not reallocated; the base pointer stays valid",
-	"entityPool.reserved":           "constant",
-	"lock.mu":                       "mutex",
-	"bitPool.bits":                  "slots are overwritten by getNew before use",
-	"observerManager.maxEventType":  "reset (assigned) in the function; listed for the early-return path",
-	"archetype.archetypeData":       "pointer to persisting data",
-	"archetype.componentsMap":       "immutable after creation",
-	"archetype.mask":                "immutable after creation",
-	"archetype.id":                  "immutable after creation",
-	"archetype.numRelations":        "immutable after creation",
-	"archetypeData.components":      "immutable after creation",
-	"archetypeData.itemSizes":       "immutable after creation",
-	"archetypeData.isRelation":      "immutable after creation",
-	"archetypeData.zeroValue":       "immutable after creation",
-	"archetypeData.node":            "immutable after creation",
-	"table.entities":                "rows beyond len are never read; entities are plain integers",
-	"table.zeroPointer":             "immutable after creation",
-	"table.components":              "column lookup, immutable after creation",
-	"table.ids":                     "immutable after creation",
-	"table.relationIDs":             "relation tables are freed by the archetype reset and re-targeted on recycling",
-	"table.id":                      "immutable",
-	"table.archetype":               "immutable",
-	"table.cap":                     "memory is kept by design",
-	"table.isFree":                  "set by the archetype reset for relation tables; tables without relations are never free",
-	"column.pointer":                "buffer kept",
-	"column.itemSize":               "immutable",
-	"column.elemType":               "immutable",
-	"column.target":                 "re-assigned on recycling",
-	"column.index":                  "immutable",
-	"column.isRelation":             "immutable",
-	"column.isTrivial":              "immutable",
-	"Resources.registry":            "documented: the registry is not cleared",
-	"intPool.capacityIncrement":     "constant",
-	"tableIDs.indices":              "cleared (re-made) by the clear function; listed for completeness",
+	"World.stats":                  "statistics object is recomputed on every Stats call",
+	"storage.graph":                "documented: Reset does not remove archetypes; graph nodes map masks to archetypes",
+	"storage.archetypes":           "documented: archetypes persist; each is reset in the loop",
+	"storage.archetypesData":       "archetype data persists with the archetypes",
+	"storage.allArchetypes":        "archetypes persist",
+	"storage.componentIndex":       "archetypes persist",
+	"storage.relationArchetypes":   "archetypes persist",
+	"storage.tables":               "tables persist (memory is kept); reset through their archetypes",
+	"storage.components":           "column lookup of persisting tables",
+	"storage.registry":             "documented: the registry is not cleared",
+	"storage.config":               "configuration",
+	"storage.slices":               "scratch slices are empty between operations",
+	"entityPool.pointer":           "the buffer is re-sliced, not reallocated; the base pointer stays valid",
+	"entityPool.reserved":          "constant",
+	"lock.mu":                      "mutex",
+	"bitPool.bits":                 "slots are overwritten by getNew before use",
+	"observerManager.maxEventType": "reset (assigned) in the function; listed for the early-return path",
+	"archetype.archetypeData":      "pointer to persisting data",
+	"archetype.componentsMap":      "immutable after creation",
+	"archetype.mask":               "immutable after creation",
+	"archetype.id":                 "immutable after creation",
+	"archetype.numRelations":       "immutable after creation",
+	"archetypeData.components":     "immutable after creation",
+	"archetypeData.itemSizes":      "immutable after creation",
+	"archetypeData.isRelation":     "immutable after creation",
+	"archetypeData.zeroValue":      "immutable after creation",
+	"archetypeData.node":           "immutable after creation",
+	"table.entities":               "rows beyond len are never read; entities are plain integers",
+	"table.zeroPointer":            "immutable after creation",
+	"table.components":             "column lookup, immutable after creation",
+	"table.ids":                    "immutable after creation",
+	"table.relationIDs":            "relation tables are freed by the archetype reset and re-targeted on recycling",
+	"table.id":                     "immutable",
+	"table.archetype":              "immutable",
+	"table.cap":                    "memory is kept by design",
+	"table.isFree":                 "set by the archetype reset for relation tables; tables without relations are never free",
+	"column.pointer":               "buffer kept",
+	"column.itemSize":              "immutable",
+	"column.elemType":              "immutable",
+	"column.target":                "re-assigned on recycling",
+	"column.index":                 "immutable",
+	"column.isRelation":            "immutable",
+	"column.isTrivial":             "immutable",
+	"Resources.registry":           "documented: the registry is not cleared",
+	"intPool.capacityIncrement":    "constant",
+	"tableIDs.indices":             "cleared (re-made) by the clear function; listed for completeness",
 }
 
 // fields that the chain's reset functions must handle (frozen from the pinned tree; a field in neither table fails closed).
@@ -94,16 +94,17 @@ var c16Reset = map[string]bool{
 	"observerManager.anyNoComps": true, "observerManager.anyNoWith": true, "observerManager.pool": true, "observerManager.indices": true, "observerManager.totalCount": true,
 	"archetype.tables": true, "archetype.relationTables": true, "archetypeData.freeTables": true, "archetypeData.targetTables": true,
 	"table.len": true, "table.columns": true,
-	"column.data": true,
+	"column.data":         true,
 	"Resources.resources": true,
-	"intPool.pool": true, "intPool.next": true, "intPool.available": true,
+	"intPool.pool":        true, "intPool.next": true, "intPool.available": true,
 	"tableIDs.tables": true,
 }
 
 type resetInfo struct {
 	f       *core.Func
 	handled map[string]bool
-	callees []*core.Func // reset functions of field types
+	nodes   map[string][]ast.Node // per handled key: the nodes of f (statements or calls) that handle it
+	callees []*core.Func          // reset functions of field types
 }
 
 func c16r1(c *core.Ctx) {
@@ -119,18 +120,26 @@ func c16r1(c *core.Ctx) {
 		if visited[f] != nil {
 			return
 		}
-		ri := &resetInfo{f: f, handled: map[string]bool{}}
+		ri := &resetInfo{f: f, handled: map[string]bool{}, nodes: map[string][]ast.Node{}}
 		visited[f] = ri
 		recvType := f.Recv
-		var walkBody func(g *core.Func, depth int)
-		walkBody = func(g *core.Func, depth int) {
+		var walkBody func(g *core.Func, depth int, top ast.Node)
+		walkBody = func(g *core.Func, depth int, top ast.Node) {
 			core.InspectNoLits(g.Body, func(n ast.Node) bool {
+				at := top
+				if depth == 0 {
+					at = n
+				}
+				mark := func(k string) {
+					ri.handled[k] = true
+					ri.nodes[k] = append(ri.nodes[k], at)
+				}
 				switch x := n.(type) {
 				case *ast.AssignStmt, *ast.IncDecStmt:
 					for _, s := range m.DirectStores(g, x) {
 						for _, k := range s.Path.Fields() {
 							if ownerOf(k) == recvType || (recvType == "archetype" && ownerOf(k) == "archetypeData") {
-								ri.handled[k] = true
+								mark(k)
 							}
 						}
 					}
@@ -139,8 +148,20 @@ func c16r1(c *core.Ctx) {
 						if len(x.Args) > 0 {
 							for _, k := range m.AccessPath(g, x.Args[0]).Fields() {
 								if ownerOf(k) == recvType {
-									ri.handled[k] = true
+									mark(k)
 								}
+							}
+						}
+					}
+					if bp, isPair := bufferPairs[recvType]; isPair && len(c.Eff.StoresAt(g, x)) > 0 {
+						for _, arg := range x.Args {
+							for _, e := range exprChain(m, g, arg, 0) {
+								ast.Inspect(e, func(y ast.Node) bool {
+									if sel, ok := y.(*ast.SelectorExpr); ok && fieldKeyOf(m, sel) == recvType+"."+bp[1] {
+										mark(recvType + "." + bp[0])
+									}
+									return true
+								})
 							}
 						}
 					}
@@ -154,7 +175,7 @@ func c16r1(c *core.Ctx) {
 					if len(rp.Fields()) > 0 && (ownerOf(rp.Fields()[0]) == recvType || (recvType == "archetype" && ownerOf(rp.Fields()[0]) == "archetypeData")) {
 						for _, fk := range rp.Fields() {
 							if ownerOf(fk) == recvType || ownerOf(fk) == "archetypeData" {
-								ri.handled[fk] = true
+								mark(fk)
 							}
 						}
 						if k == core.CallStatic && cal.Recv != recvType {
@@ -167,14 +188,16 @@ func c16r1(c *core.Ctx) {
 					// helper on the same receiver: inline
 					if k == core.CallStatic && cal.Recv == recvType && cal != g && depth < 3 {
 						if id, ok := ast.Unparen(sel.X).(*ast.Ident); ok && g.Sig.Recv() != nil && m.Info.ObjectOf(id) == g.Sig.Recv() {
-							walkBody(cal, depth+1)
+							walkBody(cal, depth+1, at)
 						}
 					}
+					// raw zeroing through the pointer derived from a buffer field handles that buffer
+					// (the two zeroing strategies of a column are alternatives for the same obligation)
 				}
 				return true
 			})
 		}
-		walkBody(f, 0)
+		walkBody(f, 0, nil)
 		for _, cal := range ri.callees {
 			if cal.Sig != nil && cal.Sig.Results().Len() == 0 {
 				analyze(cal)
@@ -232,56 +255,179 @@ func c16r1(c *core.Ctx) {
 				case c16Reset[key]:
 					c.Violation("C16/R1", subject, c.At(ri.f.Pos()), fmt.Sprintf("%s does not reset field %s; state from before the Reset would survive into the reused world", ri.f.Name, key))
 				default:
-					c.Undecide("C16/R1", subject, "field is neither reset nor classified as persistent (new field: extend the classification in rules/c16.go)")
+					// a field the classification does not know (added later): it may stay as it is only if nothing
+					// modifies it after construction; otherwise state from before the Reset survives
+					if w := writtenAfterConstruction(c, key); w == "" {
+						c.OK("C16/R1", subject, c.At(ri.f.Pos()), "not in the classification; immutable after construction (no function other than constructors of "+o+" stores it)")
+					} else {
+						c.Violation("C16/R1", subject, c.At(ri.f.Pos()), fmt.Sprintf("%s does not reset field %s, which %s modifies; state from before the Reset would survive into the reused world", ri.f.Name, key, w))
+					}
 				}
 			}
 		}
-		// early returns only under the nothing-to-reset idiom
+		// Every field the function resets is reset on every normal path, except on exits that are dominated by a
+		// nothing-to-reset test (an emptiness test of an own length/index/count, or an immutable boolean property of
+		// the receiver such as "has no relations"). Formulated on paths, so early returns, else-branches and
+		// alternative strategies in separate branches are all treated alike.
+		exemptExit := map[*ast.ReturnStmt]bool{}
 		core.InspectNoLits(ri.f.Body, func(n ast.Node) bool {
-			is, ok := n.(*ast.IfStmt)
+			r, ok := n.(*ast.ReturnStmt)
 			if !ok {
 				return true
 			}
-			hasRet := false
-			for _, s := range is.Body.List {
-				if _, ok := s.(*ast.ReturnStmt); ok {
-					hasRet = true
-				}
-			}
-			if !hasRet || is.End() >= ri.f.Body.End()-2 {
-				return true
-			}
-			cond := m.ExprString(is.Cond)
-			subject := ri.f.Name + ": early return if " + cond
-			okIdiom := false
-			if be, ok := ast.Unparen(is.Cond).(*ast.BinaryExpr); ok && be.Op == token.EQL && m.ExprString(be.Y) == "0" {
-				if call, ok := ast.Unparen(be.X).(*ast.CallExpr); ok && m.IsBuiltin(call, "len") {
-					if ownerOf(fieldKeyOf(m, call.Args[0])) == ri.f.Recv {
-						okIdiom = true
+			spec := core.GuardSpec{
+				Only:      ri.f,
+				GuardAtom: func(ff *core.Func, at core.Atom) bool { return nothingToResetAtom(m, ri.f, at) },
+				Needs: func(ff *core.Func, x ast.Node) []core.Witness {
+					if x == ast.Node(r) {
+						return []core.Witness{{What: "return"}}
 					}
-				}
-				if ownerOf(fieldKeyOf(m, be.X)) != "" || strings.HasPrefix(m.ExprString(be.X), "own") {
-					okIdiom = true // numeric emptiness test of a field or of the own length parameter
-				}
+					return nil
+				},
+				SkipCallee: func(*core.Func) bool { return true },
 			}
-			if u, ok := ast.Unparen(is.Cond).(*ast.UnaryExpr); ok && u.Op == token.NOT {
-				if call, ok := ast.Unparen(u.X).(*ast.CallExpr); ok {
-					if k, cal, _ := m.Callee(call); k == core.CallStatic && returnsBool(cal) && cal.Recv == ri.f.Recv {
-						okIdiom = true // branch on an immutable property of the receiver (e.g. HasRelations), both branches reset
-					}
-				}
-			}
-			if okIdiom {
-				c.OK("C16/R1", subject, c.At(is.Pos()), "nothing-to-reset idiom")
-			} else {
-				c.Violation("C16/R1", subject, c.At(is.Pos()), fmt.Sprintf("%s returns early under `%s`, which is not an emptiness test of its own index/length; part of the state may be left un-reset", ri.f.Name, cond))
+			if len(m.MustPrecede(spec).Unguarded[ri.f]) == 0 {
+				exemptExit[r] = true
 			}
 			return true
 		})
+		var keys []string
+		for k := range ri.nodes {
+			keys = append(keys, k)
+		}
+		sort.Strings(keys)
+		for _, k := range keys {
+			set := map[ast.Node]bool{}
+			for _, n := range ri.nodes[k] {
+				if n != nil {
+					set[n] = true
+				}
+			}
+			// buffer and derived pointer are one obligation
+			for owner, bp := range bufferPairs {
+				if k == owner+"."+bp[0] || k == owner+"."+bp[1] {
+					for _, n := range append(append([]ast.Node{}, ri.nodes[owner+"."+bp[0]]...), ri.nodes[owner+"."+bp[1]]...) {
+						if n != nil {
+							set[n] = true
+						}
+					}
+				}
+			}
+			if len(set) == 0 {
+				continue
+			}
+			// a reset inside a loop over the elements is passed when the loop is reached: zero iterations mean
+			// that there is nothing to reset
+			type span struct{ lo, hi token.Pos }
+			var headers []span
+			for n := range set {
+				var outer ast.Stmt
+				core.InspectNoLits(ri.f.Body, func(x ast.Node) bool {
+					switch l := x.(type) {
+					case *ast.ForStmt:
+						if outer == nil && l.Body.Pos() <= n.Pos() && n.End() <= l.Body.End() {
+							outer = l
+							headers = append(headers, span{l.Pos(), l.Body.Lbrace})
+						}
+					case *ast.RangeStmt:
+						if outer == nil && l.Body.Pos() <= n.Pos() && n.End() <= l.Body.End() {
+							outer = l
+							headers = append(headers, span{l.Pos(), l.Body.Lbrace})
+						}
+					}
+					return true
+				})
+			}
+			passes := func(n ast.Node) bool {
+				if set[n] {
+					return true
+				}
+				for _, h := range headers {
+					if h.lo <= n.Pos() && n.End() <= h.hi {
+						return true
+					}
+				}
+				return false
+			}
+			subject := ri.f.Name + ": " + k + " on all paths"
+			if passedOnAllPathsExcept(m, ri.f, passes, exemptExit) {
+				c.OK("C16/R1", subject, c.At(ri.f.Pos()), "reset on every normal path (exits under a nothing-to-reset test excepted)")
+			} else {
+				c.Violation("C16/R1", subject, c.At(ri.f.Pos()), fmt.Sprintf("%s resets %s only on some paths: a normal path reaches a return without it and without a nothing-to-reset test; part of the state may be left un-reset", ri.f.Name, k))
+			}
+		}
 	}
-	if len(types_) < 8 {
+	if len(types_) < 3 {
 		c.Undecide("C16/R1", "chain", fmt.Sprintf("reset chain discovered from World.Reset has only %d types: %v", len(types_), tnames))
 	}
+}
+
+// writtenAfterConstruction returns the name of a function that stores into the field (or into what it holds) and is
+// not a constructor of the field's owner type (a function whose result is that type), or "".
+func writtenAfterConstruction(c *core.Ctx, key string) string {
+	m := c.M
+	owner := ownerOf(key)
+	for _, f := range m.AllFuncs() {
+		if f.Sig != nil && f.Sig.Results().Len() > 0 {
+			rt := f.Sig.Results().At(0).Type()
+			if p, ok := rt.(*types.Pointer); ok {
+				rt = p.Elem()
+			}
+			if core.NamedName(rt) == owner {
+				continue
+			}
+		}
+		for _, st := range c.Eff.Stores(f) {
+			if len(st.Via) == 0 && st.Path.Kind != core.RootFresh && st.Path.Has(key) {
+				return f.Name
+			}
+		}
+	}
+	return ""
+}
+
+// nothingToResetAtom: the atom says that there is nothing to reset: an own length, index or count (field of the
+// receiver, len of such a field, or an integer parameter) is zero, or an immutable boolean property of the receiver
+// (parameterless bool method without stores) has some value.
+func nothingToResetAtom(m *core.Model, f *core.Func, at core.Atom) bool {
+	e := ast.Unparen(at.Expr)
+	own := func(x ast.Expr) bool {
+		x = ast.Unparen(m.StripConv(x))
+		if call, ok := x.(*ast.CallExpr); ok && m.IsBuiltin(call, "len") && len(call.Args) == 1 {
+			x = ast.Unparen(call.Args[0])
+		}
+		if id, ok := x.(*ast.Ident); ok {
+			if v, ok := m.Info.ObjectOf(id).(*types.Var); ok {
+				if _, isP := paramIndexOf(f, v); isP && isInt(v.Type()) {
+					return true
+				}
+			}
+			return false
+		}
+		p := m.AccessPath(f, x)
+		return p.Kind == core.RootParam && p.Index == -1 && len(p.Fields()) > 0
+	}
+	switch x := e.(type) {
+	case *ast.BinaryExpr:
+		zeroY := false
+		if tv, ok := m.Info.Types[x.Y]; ok && tv.Value != nil && tv.Value.String() == "0" {
+			zeroY = true
+		}
+		if !zeroY || !own(x.X) {
+			return false
+		}
+		switch x.Op {
+		case token.EQL, token.LEQ:
+			return at.Truth
+		case token.NEQ, token.GTR:
+			return !at.Truth
+		}
+	case *ast.CallExpr:
+		if k, cal, _ := m.Callee(x); k == core.CallStatic && returnsBool(cal) && cal.Recv == f.Recv && cal.Sig.Params().Len() == 0 {
+			return true
+		}
+	}
+	return false
 }
 
 // c16r2: observers of every event slice are detached.
